@@ -221,6 +221,7 @@ def run(ctx):
     # ------------------------------------------------------------ R-C03-7
     ctx.rule('R-C03-7', 'T9 def-use chain + T4', 'wire layout: in every server-to-client packet decoder the fields are taken off the body cursor in the order the specification lays them out (reaching-definition chain over the cursor), each into the field of that meaning; optional middle fields are bypassed, the property section is exactly the announced length, the payload / reason-code list is the rest')
     run_layout(ctx, F)
+    run_outcomes(ctx, F)
 
 
     # ---- variable byte integer arithmetic (specification 1.5.5): constants and their roles
@@ -244,6 +245,20 @@ def run(ctx):
     okv = [(b, show(e)) for b, e in prims.ret_variants(dv) if 'DecodeVliResult::Value{' in show(e)]
     ctx.ob(len(okv) == 1 and re.search(r"^Result::Ok\{0: DecodeVliResult::Value\{0: value, 1: Index::index\(buffer, RangeFrom\{start: \(\(.* AddWithOverflow 1\)\)\.0\}\)\}\}$", okv[0][1]) is not None,
            'decode_vli returns the accumulated value and the bytes after the last length byte', 'vbi|decode|value', loc=dv.loc(), rule='R-C03-7')
+    def _resolved_guards(view, bb):
+        out = []
+        for g in prims.guard_strs_plain(view, bb):
+            m = re.match(r'^(!?)(\w+)$', g)
+            if m:
+                ds = [show(e) for b_, e in var_inits(view, m.group(2))]
+                if len(ds) == 1:
+                    g = m.group(1) + ds[0]
+            out.append(g)
+        return out
+    CLEAR = re.compile(r'^(!\(.* BitAnd 128\) (Ne|!=) 0\)|\(.* BitAnd 128\) (Eq|==) 0\)|!\(128 <= .*\)|\(.* < 128\))$')
+    SETB = re.compile(r'^(\(.* BitAnd 128\) (Ne|!=) 0\)|!\(.* BitAnd 128\) (Eq|==) 0\)|\(128 <= .*\)|!\(.* < 128\))$')
+    gv = _resolved_guards(dv, okv[0][0]) if okv else []
+    ctx.ob(any(CLEAR.match(g) for g in gv) and not any(SETB.match(g) for g in gv), 'decode_vli finishes exactly at the first byte whose continuation bit is clear (guards of the Value return: %s)' % gv[-2:], 'vbi|decode|polarity', loc=dv.loc(), rule='R-C03-7')
     fours = [show(c.arg(k)) for c in dv.calls() for k in range(len(c.args)) if c.nfn.split('::')[-1] in ('into_iter', 'take')]
     ctx.ob(any(re.search(r'Range\{start: 0, end: 4\}', x) or x == '4' for x in fours) or any(op in ('Lt', 'Ge') and c == 4 for op, c, txt, i in bo), 'decode_vli reads at most four bytes', 'vbi|decode|four', loc=dv.loc(), rule='R-C03-7')
 
@@ -380,6 +395,60 @@ def run(ctx):
     te = [(i, s_) for (i, s_, pe, rve) in db.field_writes() if show(pe) == 'self.state' and show(rve) == 'DecoderState::TerminalError{}']
     ctx.ob(len(te) == 1 and guarded_any(db, te[0][0], [r'^decode_result is TerminalError$']), 'a terminal error latches the decoder', 'consume|loop|latch', loc=db.loc())
 
+    # ---- added after the mutation sweep: the state transitions themselves (each step leaves the decoder in the state the next byte needs)
+    def _writes(view):
+        return {(show(pe), show(rve)): i_ for (i_, s_, pe, rve) in view.field_writes()}
+    wt = _writes(pt)
+    contb = [b_ for b_, e_ in prims.ret_variants(pt) if 'DecoderDirective::Continue' in show(e_)]
+    k_ = ('self.state', 'DecoderState::ReadTotalRemainingLength{}')
+    ctx.ob(k_ in wt and bool(contb) and all(pt.dominates(wt[k_], b_) for b_ in contb), 'type state: a consumed first byte moves the decoder to the length state', 'transition|type', loc=pt.loc(), rule='R-C03-4')
+    wl = _writes(pl)
+    contl = [b_ for b_, e_ in prims.ret_variants(pl) if 'DecoderDirective::Continue' in show(e_) and guarded_any(pl, b_, [r' is Value$'])]
+    kb = ('self.state', 'DecoderState::ReadPacketBody{}')
+    krl = [k for k in wl if k[0] == 'self.remaining_length' and re.match(r'^Option::Some\{0: \(decode::decode_vli\(Deref::deref\(self\.scratch\)\)\)@Ok\.0@Value\.0 as usize\}$', k[1])]
+    clr = [m_.bb for m_ in prims.mutations(pl) if m_.kind == 'mutcall' and m_.method == 'clear' and show(m_.path) == 'self.scratch']
+    ok = len(contl) == 1 and kb in wl and len(krl) == 1 and len(clr) == 1 and all(pl.dominates(x, contl[0]) for x in (wl[kb], wl[krl[0]], clr[0]))
+    ctx.ob(ok, 'length state: a complete, admissible length stores the remaining length, empties the scratch buffer and moves to the body state before the step continues', 'transition|length', loc=pl.loc(), rule='R-C03-4')
+    pbk = [m_ for m_ in prims.mutations(pb) if show(m_.path) == 'context.decoded_packets']
+    ok = len(pbk) == 1 and pbk[0].method == 'push_back' and cont and pb.dominates(pbk[0].bb, cont[0][0]) and guarded_any(pb, pbk[0].bb, [r'^decode::decode_packet\(.*\) is Ok$'])
+    ctx.ob(ok, 'body state: every decoded packet is appended at the back of the output queue (wire order) before the step continues', 'transition|emit', loc=pb.loc(), rule='R-C03-4')
+    rvd = prims.ret_variants(db)
+    errs_d = [(b_, show(e_)) for b_, e_ in rvd if e_[0] == 'agg' and e_[2] == 'Err']
+    ok = prims.rets_after(db, [r'^decode_result is TerminalError$']) == {'Err'} and len(errs_d) == 1 and errs_d[0][1] == 'Result::Err{0: decode_result@TerminalError.0}'
+    ctx.ob(ok, 'a terminal error of any step is what decode_bytes returns (never Ok)', 'transition|error-out', loc=db.loc(), rule='R-C03-4')
+    rst_ = ctx.fn('Decoder::reset')
+    eff_r = prims.must_field_effects(F, rst_)
+    for f_, w_ in sorted({'state': 'DecoderState::ReadPacketType{}', 'scratch': 'clear()', 'first_byte': 'Option::None{}', 'remaining_length': 'Option::None{}'}.items()):
+        ctx.ob(w_ in eff_r.get(f_, set()), 'Decoder::reset performs `%s := %s`' % (f_, w_), 'transition|reset|' + f_, loc=rst_.loc(), rule='R-C03-4')
+    rnp = ctx.fn('Decoder::reset_for_new_packet')
+    rcl = rnp.calls('Decoder::reset')
+    gs_ = prims.guard_strs_plain(rnp, rcl[0].bb) if len(rcl) == 1 else None
+    ctx.ob(gs_ is not None and gs_ in ([], ['!(self.state == DecoderState::TerminalError{})']), 'after a packet the per-packet state is reset (unless the decoder is latched) (%s)' % gs_, 'transition|packet-reset', loc=rnp.loc(), rule='R-C03-4')
+
+    # ---- added after the mutation sweep: the primitives accept a field that exactly fills the rest of the packet (bounds are exact)
+    npb = 0
+    for v_ in F.fns_in('decode.rs'):
+        n_ = v_.path.split('::')[-1]
+        if not n_.startswith('decode_') or v_.f.get('parent') or n_ in ('decode_bytes', 'decode_vli', 'decode_vli_into_mutable') or 'length_prefixed_optional_string' in n_:
+            continue
+        for b_, e_ in prims.ret_variants(v_):
+            x_ = show(e_)
+            m1 = re.match(r'^Result::Ok\{0: Index::index\(bytes, RangeFrom\{start: (\d+)\}\)\}$', x_)
+            m2 = re.match(r'^Result::Ok\{0: Index::index\(Index::index\(bytes, RangeFrom\{start: 2\}\), RangeFrom\{start: (.*)\}\)\}$', x_)
+            if not (m1 or m2):
+                continue
+            npb += 1
+            lens = [g for g in prims.guard_strs_plain(v_, b_) if re.search(r'slice::(len|is_empty)\(', g)]
+            if m1:
+                k_ = int(m1.group(1))
+                want = [['(%d <= slice::len(bytes))' % k_]] + ([['!slice::is_empty(bytes)']] if k_ == 1 else [])
+                ctx.ob(lens in want, '%s consumes %d byte(s) and rejects exactly the inputs shorter than that (%s)' % (n_, k_, lens), 'prim-bound|' + n_, loc=v_.loc(), rule='R-C03-6')
+            else:
+                ln_ = m2.group(1)
+                okp = len(lens) == 2 and lens[0] == '(2 <= slice::len(bytes))' and re.match(r'^\(num::from_be_bytes\(.*Index::index\(bytes, RangeTo\{end: 2\}\).* as usize <= slice::len\(Index::index\(bytes, RangeFrom\{start: 2\}\)\)\)$', lens[1]) is not None
+                ctx.ob(okp and ln_.startswith('num::from_be_bytes('), '%s needs the two prefix bytes and exactly the announced number of bytes after them; a field that ends the packet is accepted (%s)' % (n_, [l_[:40] for l_ in lens]), 'prim-bound|' + n_, loc=v_.loc(), rule='R-C03-6')
+    ctx.floor(npb, 9, 'fixed-width / length-prefixed decode primitives')
+
     # ------------------------------------------------------------ R-C03-5
     ctx.rule('R-C03-5', 'T7 panic inventory', 'no panic-capable construct on the decode path (index, range, unwrap, explicit panic) is reachable without a dominating guard that makes it safe')
     TABLE = {
@@ -502,3 +571,65 @@ def run_layout(ctx, F):
             ctx.ob(len(pu) == 1 and re.search(r'^\(Try::branch\(%s\(\(Iterator::next\(iter\)\)@Some\.0\)\)\)@Continue\.0$' % conv, show(pu[0].arg(1))) is not None,
                    '%s (MQTT %s): every remaining byte becomes one reason code, in order, via the fallible conversion' % (var.upper(), ver), 'layout|%s|%s|reason-codes' % (var, ver), loc=v.loc())
     ctx.floor(n, 21, 'decoders with a checked wire layout')
+
+# ---------------------------------------------------------------------------------------------
+# R-C03-7 (outcome tables, added after the mutation sweep): which remaining-length conditions lead to acceptance / rejection in every
+# inbound packet decoder, and when a payload is stored.  The layout graph above fixes the order of the fields; this table fixes the
+# optional tails (MQTT 5 acks may stop after the packet id or after the reason code: 3.4.2.1, 3.4.2.2.1; a zero-length payload is valid).
+_E, _NE = '(len($b) == 0)', '!(len($b) == 0)'
+_L2, _NL2 = '(len($b) == 2)', '!(len($b) == 2)'
+_P, _NP = '(properties_length == len($b))', '!(properties_length == len($b))'
+_PF, _NPF = '(properties_length <= len($b))', '(len($b) < properties_length)'
+_ACK5 = ({(_E,), (_NE, _E), (_NE, _NE, _P)}, {(_NE, _NE, _NP)}, None)
+_ACK3 = ({(_L2,)}, {(_NL2,)}, None)
+OUTCOMES = {
+    ('Puback', '5'): _ACK5, ('Pubrec', '5'): _ACK5, ('Pubrel', '5'): _ACK5, ('Pubcomp', '5'): _ACK5, ('Disconnect', '5'): _ACK5,
+    ('Puback', '311'): _ACK3, ('Pubrec', '311'): _ACK3, ('Pubrel', '311'): _ACK3, ('Pubcomp', '311'): _ACK3, ('Unsuback', '311'): _ACK3,
+    ('Connack', '311'): ({(_L2,)}, {(_NL2,), (_L2,)}, None),
+    ('Connack', '5'): ({(_NE, _P)}, {(_NE,), (_NE, _NP), (_E,)}, None),
+    ('Disconnect', '311'): ({(_E,)}, {(_NE,), (_E,)}, None),
+    ('Pingresp', '5'): ({(_E,)}, {(_NE,), (_E,)}, None),
+    ('Auth', '5'): ({(_E,), (_NE, _P)}, {(_NE, _NP)}, None),
+    ('Publish', '5'): ({(_PF,)}, {(_NPF,)}, {(_PF, '!(slice::len(Index::index(mutable_body, RangeFrom{start: properties_length})) == 0)')}),
+    ('Publish', '311'): ({()}, set(), {(_NE,)}),
+    ('Suback', '5'): ({(_PF,)}, {(_NPF,)}, None), ('Unsuback', '5'): ({(_PF,)}, {(_NPF,)}, None),
+    ('Suback', '311'): ({()}, set(), None),
+}
+
+
+def _len_atoms(view, bb):
+    out = []
+    for g in prims.guard_strs_plain(view, bb):
+        if g.startswith('Try::branch(') or not re.search(r'slice::(len|is_empty)\(|properties_length', g):
+            continue
+        g = re.sub(r'^(!?)slice::is_empty\((.*)\)$', lambda m: '%s(slice::len(%s) == 0)' % (m.group(1), m.group(2)), g)
+        g = re.sub(r'slice::len\((\w+)\)', 'len($b)', g)
+        g = re.sub(r'^\(0 == (.*)\)$', r'(\1 == 0)', g)
+        out.append(g)
+    return tuple(out)
+
+
+def run_outcomes(ctx, F):
+    n = 0
+    for (var, ver), (ok_w, err_w, pay_w) in sorted(OUTCOMES.items()):
+        name = '%s::decode_%s_packet%s' % (var.lower(), var.lower(), '' if var == 'Pingresp' else ver)
+        v = ctx.try_fn(name)
+        if v is None:
+            continue
+        n += 1
+        oks, errs = set(), set()
+        for b, e in prims.ret_variants(v):
+            if e[0] == 'agg' and e[2] == 'Ok':
+                oks.add(_len_atoms(v, b))
+            elif e[0] == 'agg' and e[2] == 'Err':
+                t = _len_atoms(v, b)
+                if t:
+                    errs.add(t)
+        ctx.ob(oks == ok_w, '%s accepts exactly under the remaining-length conditions of the specification (optional tail fields may be absent; a tail that is present must fit) (accepting: %s)' % (short(v.path), sorted(oks)),
+               'outcomes|accept|%s|%s' % (var, ver), loc=v.loc(), rule='R-C03-7')
+        ctx.ob(errs == err_w, '%s rejects under exactly the complementary length conditions (%s)' % (short(v.path), sorted(errs)), 'outcomes|reject|%s|%s' % (var, ver), loc=v.loc(), rule='R-C03-7')
+        if pay_w is not None:
+            pw = {_len_atoms(v, i) for (i, s_, pe, rve) in v.field_writes() if show(pe).endswith('.payload')}
+            ctx.ob(pw == pay_w, '%s stores a payload exactly when bytes remain after the header (%s)' % (short(v.path), sorted(pw)), 'outcomes|payload|%s|%s' % (var, ver), loc=v.loc(), rule='R-C03-7')
+    if ctx.config == 'all':
+        ctx.floor(n, 20, 'decoder outcome tables')
